@@ -8,7 +8,7 @@ use crate::{
 
 #[cfg(feature = "runtime-async-std")]
 use async_std::{
-    fs::File as file,
+    fs::{remove_file, rename, File as file},
     io::prelude::*,
     io::{
         BufReader as ioBufReader, Error as ioError, ErrorKind as ioErrorKind,
@@ -24,7 +24,7 @@ use std::{
 };
 #[cfg(feature = "runtime-tokio")]
 use tokio::{
-    fs::File as file,
+    fs::{remove_file, rename, File as file},
     io::{AsyncBufReadExt, AsyncWriteExt, BufReader as ioBufReader},
 };
 
@@ -106,8 +106,24 @@ where
     }
 
     async fn save_policy_file(&self, text: String) -> Result<()> {
-        let mut file = file::create(&self.file_path).await?;
-        file.write_all(text.as_bytes()).await?;
+        // write a sibling file completely, then rename it over the policy
+        // file: a failed or interrupted write never truncates the old policy
+        let path = self.file_path.as_ref();
+        let mut tmp = path.as_os_str().to_owned();
+        tmp.push(".tmp");
+        let res = async {
+            let mut file = file::create(&tmp).await?;
+            file.write_all(text.as_bytes()).await?;
+            file.flush().await?;
+            file.sync_all().await?;
+            Ok::<(), ioError>(())
+        }
+        .await;
+        if let Err(e) = res {
+            let _ = remove_file(&tmp).await;
+            return Err(e.into());
+        }
+        rename(&tmp, path).await?;
         Ok(())
     }
 }
